@@ -3,6 +3,12 @@
 // against the Gallina the translator produced.
 package basic
 
+import (
+	"encoding/binary"
+
+	"fixture/dep"
+)
+
 const (
 	Shift = 3
 	Mask  = 0x7f
@@ -206,6 +212,21 @@ func (in *Inner) Room() int64      { return in.limit - int64(in.length) }
 func (r *Ring) InnerRoom() int64   { return r.inner.Room() }
 func LenOf(b []byte, s string) int { return len(b) + len(s) }
 func (b Bytes) Size() int          { return len(b) }
+
+// ---- callees in other packages (translated first: "fixture/dep:Twice", "encoding/binary:bigEndian.Uint16", ...)
+
+type Holder struct {
+	cfg  dep.Cfg
+	pcfg *dep.Cfg
+}
+
+func UseDep(a uint8) uint8             { return dep.Twice(a) + 1 }
+func (h *Holder) Scaled(a uint8) uint8 { return h.pcfg.Apply(a) + h.cfg.Scale }
+func UseStd(b []byte, off int) uint16  { return binary.BigEndian.Uint16(b[off:]) }
+func UseLE(b []byte) uint32            { return binary.LittleEndian.Uint32(b) }
+func UseStd64(b []byte) (uint64, uint64) {
+	return binary.BigEndian.Uint64(b), binary.LittleEndian.Uint64(b[1:])
+}
 
 // ---- panics
 
